@@ -160,6 +160,10 @@ class Executor:
     def call_function(self, fi, args, kwargs=None, self_obj=None):
         """Execute the real AST of a repo function with the given arguments."""
         kwargs = dict(kwargs or {})
+        if isinstance(fi, FuncInfo) and any(d.split('(')[0].split('.')[-1] in ('lru_cache', 'cache', 'cached_property', 'memoize')
+                                            for d in fi.decorators):
+            # a memoised function carries hidden state between calls: not modelled, never treated as its plain body
+            raise Unsupported('memoised function %s (%s)' % (fi.fullname, fi.decorators))
         if self.depth > self.inline_depth:
             raise Unsupported('inline depth exceeded at %s' % fi.fullname)
         node = fi.node
@@ -814,6 +818,9 @@ class Executor:
                 return _os.path.splitext(o.p)[1]
             if name == 'name':
                 return _os.path.basename(o.p)
+            if name == 'write_text':
+                # file output: recorded, not performed
+                return Builtin('Path.write_text', lambda ex, text, **k: ex.ctx.events.append(('write_text', o.p, text)))
             raise Unsupported('Path.%s' % name)
         if isinstance(o, Opaque):
             return Opaque('%s.%s' % (o.what, name))
